@@ -91,6 +91,12 @@ CHECKS.update({
    note="Trusted: TLC, Json module, harness (message flags computed there), catch_unwind. 9 marked DECISIONS where the macro rustdoc is silent. One open finding (KF-C20-MSG-mkdir).",
    technique="TLA+ oracle spec model-checked with TLC + TLC validation of macro outcomes on exhaustively reached real states"),
 })
+CHECKS.update({
+ "C11": dict(level=MC, ref="DESIGN.md 5/C11",
+   text="ChmodSym.tla is the comma-repeatable grammar [dfa]:[ugoa][-+=][rwx]; MC_ChmodSym runs it as a one-character-per-step scanner machine over every well-formed single and double clause and every short string of the alphabet x {file, dir, link} x start modes (final mode = SymMode, type bits kept, links unchanged, =/+/- algebra, malformed first clause => error and unchanged); MC_VfsPerm applies Vfs!Op_chmod_b / Op_chown_b to every tree of the namespace x every builder option combination (only targets change, exact value, octal beats symbolic, links never altered, is_exec/is_readonly agree with mode, error => unchanged). The real chmod_b/chown_b/chmod/chown/mkfile_m/mkdir_m run on one-entry trees x 512 permissions x clauses and on trees with links x the option cross product; TLC judges every step with the reference operators (Trace_VfsPerm over VfsJudge).",
+   note=VFS_NOTE + " Unsettled: follow through a link that points to another link. Stdfs chmod/chown are compared in C02.",
+   technique="TLA+ grammar scanner machine + reference operators model-checked with TLC; TLC validation of real chmod/chown transitions (exhaustive modes x clauses, trees x options)"),
+})
 NOT_YET = {}
 
 def main():
